@@ -32,6 +32,7 @@ func checkC20(c *Ctx) {
 	c.Rule("C20/R7", "every in-repo fs.Writer.CloseWithError discards: it never publishes the file and, where the file already exists on disk, removes it")
 
 	c.Rule("C20/R9", "a file without benchmark lines fails the upload: the function that stores one file returns success only where that file's record count is known to be non-zero (or returns the count and every caller tests it)")
+	c.Rule("C20/R12", "what is indexed is what is stored, all of it: the indexing reader reads from io.TeeReader(part, file-store writer), and the part is handed over as it came from the multipart reader")
 	c.Rule("C20/R11", "server metadata cannot be overridden by content: every benchmark reader storage/app makes for an uploaded part receives the server's labels through AddLabels on every path before its first Next")
 	c.Rule("C20/R10", "an aborted upload stays invisible without hiding a committed one (same rule as C19/R8): in the upload listing the filter on the per-upload record count comes before every LIMIT, so the hidden rows of failed uploads use up no places")
 	c.Rule("C20/R8", "an upload ID is never handed out twice: the statement that creates the Uploads row is a plain INSERT (no REPLACE, no OR REPLACE/IGNORE, no ON CONFLICT/ON DUPLICATE KEY), so an ID that already exists is refused by the primary key instead of silently replacing the committed upload (and, through ON DELETE CASCADE, its records)")
@@ -40,6 +41,7 @@ func checkC20(c *Ctx) {
 	c20(c, p)
 	c.Under("C19/R8", "C20/R10", func() { c19Limit(c, p) })
 	c20ServerLabels(c, p)
+	c20WholePartStored(c, p)
 	if c.Tier == "thorough" && c.override == nil {
 		if p2, err := load(c, loadOpts{tags: "appengine"}, pats...); err == nil {
 			c20Dropped(c, p2)
@@ -1957,4 +1959,93 @@ func c20ServerLabels(c *Ctx, p *Prog) {
 		})
 	}
 	c.Floor(R, "benchmark readers made for uploaded parts", n, 1)
+}
+
+// c20WholePartStored (C20/R12): what is indexed is what is stored, and all of it: the reader that indexes an uploaded
+// part reads from io.TeeReader(part, file-store writer) — the library tee, which reports a failed write even when the
+// read that delivered the bytes also reported the end of the input — and the part reaches it as it came from the
+// multipart reader: not wrapped (a LimitReader silently ends the file early and the upload still succeeds).
+func c20WholePartStored(c *Ctx, p *Prog) {
+	const R = "C20/R12"
+	sb := modPath + "/storage/benchfmt"
+	n := 0
+	for _, fn := range p.Funcs("storage/app") {
+		eachInstr(fn, func(_ *ssa.BasicBlock, in ssa.Instruction) {
+			nr, ok := in.(*ssa.Call)
+			if !ok || !objIs(calleeObj(&nr.Call), sb, "", "NewReader") {
+				return
+			}
+			n++
+			key := fmt.Sprintf("%s:indexed-reader#%d", fnName(fn), n)
+			src := nr.Call.Args[0]
+			if mi, ok := src.(*ssa.MakeInterface); ok {
+				src = mi.X
+			}
+			tee, ok := src.(*ssa.Call)
+			if !ok || !objIs(calleeObj(&tee.Call), "io", "", "TeeReader") {
+				c.Bad(R, key, p.pos(nr.Pos()), "the indexing reader does not read from io.TeeReader(part, file): a hand-made tee has to report a failed write to the file store even when the read that delivered the bytes also reported the end of the input — otherwise a write fault on the last chunk of a part is lost and the upload commits with a truncated file in the store")
+				return
+			}
+			// the tee's source is the function's reader parameter, and every caller passes the multipart part itself
+			from := tee.Call.Args[0]
+			if ci, ok := from.(*ssa.ChangeInterface); ok {
+				from = ci.X
+			}
+			prm, isPrm := from.(*ssa.Parameter)
+			okSrc := false
+			detail := "the tee does not read from the function's reader parameter"
+			if isPrm {
+				pi := -1
+				for k, q := range fn.Params {
+					if q == prm {
+						pi = k
+					}
+				}
+				okSrc = true
+				nCalls := 0
+				for _, g := range p.Funcs("storage/app") {
+					eachInstr(g, func(_ *ssa.BasicBlock, in2 ssa.Instruction) {
+						call, ok := in2.(*ssa.Call)
+						if !ok || call.Call.StaticCallee() != fn {
+							return
+						}
+						nCalls++
+						a := callArgs(&call.Call)[pi]
+						for {
+							switch x := a.(type) {
+							case *ssa.MakeInterface:
+								a = x.X
+								continue
+							case *ssa.ChangeInterface:
+								a = x.X
+								continue
+							}
+							break
+						}
+						ex, isEx := a.(*ssa.Extract)
+						if !isEx {
+							okSrc = false
+							detail = "a caller hands over something other than the part as it came from NextPart (wrapped, limited, buffered)"
+							return
+						}
+						pc, isCall := ex.Tuple.(*ssa.Call)
+						if !isCall || !objIs(calleeObj(&pc.Call), "mime/multipart", "Reader", "NextPart") {
+							okSrc = false
+							detail = "a caller hands over something other than the part as it came from NextPart"
+						}
+					})
+				}
+				if nCalls == 0 {
+					okSrc = false
+					detail = "no caller found"
+				}
+			} else if ex, isEx := from.(*ssa.Extract); isEx {
+				if pc, isCall := ex.Tuple.(*ssa.Call); isCall && objIs(calleeObj(&pc.Call), "mime/multipart", "Reader", "NextPart") {
+					okSrc = true
+				}
+			}
+			c.Check(okSrc, R, key, p.pos(tee.Pos()), "the tee reads the multipart part itself", detail+": bytes of the part that the wrapper holds back are neither stored nor indexed, yet the upload succeeds")
+		})
+	}
+	c.Floor(R, "readers that index an uploaded part", n, 1)
 }
